@@ -1790,6 +1790,10 @@ func (c *RemoteClient) runRequests(ctx context.Context, interrupt <-chan interfa
 			}
 
 		case response := <-c.requestResponseChannel:
+			// A request is queued before it is sent, so it is already waiting in the add channel
+			// when its response gets here. Register those first or the response finds no match.
+			c.addPendingRequests()
+
 			err := c.handleRequestResponse(ctx, response.message)
 			if response.response != nil {
 				response.response <- err
@@ -1798,6 +1802,18 @@ func (c *RemoteClient) runRequests(ctx context.Context, interrupt <-chan interfa
 					logger.String("name", NameForMessageType(response.message.Payload.Type())),
 				}, "Failed to handle request response : %s", err)
 			}
+		}
+	}
+}
+
+// addPendingRequests registers the requests that are waiting in the add channel.
+func (c *RemoteClient) addPendingRequests() {
+	for {
+		select {
+		case request := <-c.addRequestsChannel:
+			c.requests = append(c.requests, request)
+		default:
+			return
 		}
 	}
 }
